@@ -224,14 +224,14 @@ pub fn run(ctx: &mut Ctx) {
         extras: true,
         all_widths: false,
     };
-    ctx.meta("rule", "cases: (document, cut position c, capacity, read schedule); documents = every forest over V up to the node bound and the hand-written deep spines, every known/unknown-size choice of masters, one encoding/payload deviation; every c in 0..=len; capacities {default,16,17,64}; schedules with <= 1 short read (1,2,3,7 bytes at read k) and with every read 1 resp. 2 bytes; every (document, cut) also with each master id present, and all of them, buffered (whole reads and 1-byte reads): a complete buffered master is one Full item, nothing of an incomplete one is emitted (or, also accepted, its Start and complete tags come out flat), everything before it is, and the error is the same. Oracle: RefEncoder layout -> items completely inside the prefix, then Ends+None on a tag boundary, else UnexpectedEOF with tag_start/id/size/partial_data exactly as the statement prescribes (partial_data None accepted for zero available bytes). Non-trivial: cuts strictly inside a tag.");
+    ctx.meta("rule", "cases: (document, cut position c, capacity, read schedule); documents = every forest over V up to the node bound the hand-written deep spines and documents with a 20-45-byte payload inside open known-size masters (the buffer grows under capacities 16/17), every known/unknown-size choice of masters, one encoding/payload deviation; every c in 0..=len; capacities {default,16,17,64}; schedules with <= 1 short read (1,2,3,7 bytes at read k) and with every read 1 resp. 2 bytes; every (document, cut) also with each master id present, and all of them, buffered (whole reads and 1-byte reads): a complete buffered master is one Full item, nothing of an incomplete one is emitted (or, also accepted, its Start and complete tags come out flat), everything before it is, and the error is the same. Oracle: RefEncoder layout -> items completely inside the prefix, then Ends+None on a tag boundary, else UnexpectedEOF with tag_start/id/size/partial_data exactly as the statement prescribes (partial_data None accepted for zero available bytes). Non-trivial: cuts strictly inside a tag.");
     ctx.meta("bounds", &format!("documents <= {} elements (+ spines to depth 5 with 8-byte ids), <=1 deviation, all cuts, 4 capacities, <=1 read deviation", p.max_nodes));
     ctx.meta("assumptions", "payload contents are data-independent beyond the representative classes");
-    for c in ["cut_inside_id", "cut_inside_size", "cut_inside_payload", "cut_on_boundary_with_open_masters", "unknown_size_docs", "cuts_with_buffered_masters", "cut_inside_buffered_master_that_follows_another_master"] {
+    for c in ["cut_inside_id", "cut_inside_size", "cut_inside_payload", "cut_on_boundary_with_open_masters", "unknown_size_docs", "cuts_with_buffered_masters", "cut_inside_buffered_master_that_follows_another_master", "grown_buffer_docs"] {
         ctx.expect_nonzero(c);
     }
     let caps = [None, Some(16), Some(17), Some(64)];
-    docs::for_each_doc(ctx, &rs, &p, &mut |ctx, doc| {
+    let mut body = |ctx: &mut Ctx, doc: &Vec<Node>| -> bool {
         if crate::gen::has_ambiguous_global_after_unknown(&rs, doc) {
             return true;
         }
@@ -337,5 +337,14 @@ pub fn run(ctx: &mut Ctx) {
             }
         }
         !ctx.should_stop()
-    });
+    };
+    docs::for_each_doc(ctx, &rs, &p, &mut body);
+    // payloads of 20..45 bytes inside open known-size masters: with capacities 16 / 17 the buffer has to grow for
+    // them (to more than twice its size)
+    for (i, doc) in docs::grown_buffer_docs().into_iter().enumerate() {
+        if ctx.mine(i as u64) && !docs::doc_has_raw(&doc) {
+            ctx.count("grown_buffer_docs", 1);
+            body(ctx, &doc);
+        }
+    }
 }
